@@ -6,6 +6,7 @@ import Ufw.Model.Slip
 import Ufw.Spec.Slip
 import Ufw.Model.Endpoints
 import Ufw.Model.Lenp
+import Ufw.Model.SlipEp
 import Driver.Loop
 
 open Ufw
@@ -184,6 +185,15 @@ def line (toks : List String) : String :=
         -- a put of more than SSIZE_MAX octets is refused before the driver is called
         s!"ERR:einval calls=0"
     | none => "bad-op"
+  | ["ep.huge", _what, first, n] =>
+    -- counts beyond 32 bits (a spec-level line: the streams are too long to be lists): by get_chunk_exact /
+    -- put_chunk_exact a driver that moves `first` octets and then the rest makes the call return N after
+    -- two driver calls, each handed the position reached so far
+    match first.toNat?, n.toNat? with
+    | some f, some n =>
+      if n = 0 ∨ n > SSIZE_MAX then "ERR:einval total=0 calls=0 placed=true"
+      else s!"ok:{n} total={n} calls={if 0 < f ∧ f < n then 2 else 1} placed=true"
+    | _, _ => "bad-op"
   | ["sts", fn, skind, stream, sscript, kkind, kscript, n, asize, aused, aoff] =>
     match parseKind skind, parseHex stream, parseScript sscript, parseKind kkind, parseScript kscript,
           n.toNat?, asize.toNat?, aused.toNat?, aoff.toNat? with
@@ -389,10 +399,37 @@ def line (toks : List String) : String :=
 
 end LP
 
+/-! ### SLIP encoder over scripted endpoint drivers (C12 on top of C17) -/
+namespace SX
+open Ufw.Model.Endpoints
+
+def line (toks : List String) : String :=
+  match toks with
+  | ["slipx.enc", sof, skind, stream, sscript, kkind, kscript] =>
+    match EP.parseKind skind, parseHex stream, EP.parseScript sscript, EP.parseKind kkind, EP.parseScript kscript with
+    | some sk, some st, some ssc, some kk, some ksc =>
+      let src : Src := { kind := sk, stream := st, script := ssc }
+      let snk : Ufw.Model.Endpoints.Snk := { kind := kk, script := ksc }
+      let fuel := 2 * (ksc.length + 4) + 4
+      let (r, src', snk') := Ufw.Model.SlipEp.rfc1055_encode fuel (sof == "1") src snk
+      let view := s!"{EP.rStr true r} out={hexOf snk'.got} consumed={st.length - src'.stream.length}"
+      -- spec: drivers that only fragment their transfers (never 0, never an error) are invisible - the wire
+      -- is the RFC 1055 frame of the stream; otherwise no independent opinion
+      let plain (l : List Step) := l.all fun st => match st with | .xfer k => k ≥ 1 | _ => false
+      let spec := if plain ssc && plain ksc then
+          s!"ok:0 out={hexOf (Ufw.Spec.Slip.frame (sof == "1") st)} consumed={st.length}"
+        else view
+      s!"{view} ## {spec}"
+    | _, _, _, _, _ => "bad-op"
+  | _ => "bad-op"
+
+end SX
+
 def stepLine (_ : Unit) (toks : List String) : Unit × String :=
   ((), match toks with
   | t :: rest =>
-    if t.startsWith "slip." then slipLine (t :: rest)
+    if t.startsWith "slipx." then SX.line (t :: rest)
+    else if t.startsWith "slip." then slipLine (t :: rest)
     else if t.startsWith "ep." || t == "sts" then EP.line (t :: rest)
     else if t.startsWith "lenp." then LP.line (t :: rest)
     else "bad-op"
